@@ -56,6 +56,9 @@ type Case struct {
 	// 8 (only when every DWR is answered anyway): the peer also sends success DWAs nobody asked for,
 	// more often than the WatchdogInterval; the watchdog requests must keep coming.
 	AppTraffic int `json:"app_traffic,omitempty"`
+	// WatchdogStream: sm.Client.WatchdogStream, the stream watchdog requests are written to on a
+	// multi-stream association. On a byte-stream transport (this scenario) it must not matter.
+	WatchdogStream uint `json:"watchdog_stream,omitempty"`
 }
 
 func (c Case) w() time.Duration { return time.Duration(c.WatchdogMs) * time.Millisecond }
@@ -119,7 +122,7 @@ func runOnce(c Case) result {
 		machine.HandleFunc("RAR", func(cc diam.Conn, m *diam.Message) { m.Answer(2001).WriteTo(cc) })
 	}
 	cli := &sm.Client{Handler: machine, MaxRetransmits: uint(c.MaxRetransmits), RetransmitInterval: c.r(),
-		EnableWatchdog: true, WatchdogInterval: c.w(),
+		EnableWatchdog: true, WatchdogInterval: c.w(), WatchdogStream: c.WatchdogStream,
 		AuthApplicationID: []*diam.AVP{diam.NewAVP(avp.AuthApplicationID, avp.Mbit, 0, datatype.Unsigned32(4))}}
 
 	var mu sync.Mutex
@@ -500,6 +503,9 @@ func genCase(t *rapid.T) Case {
 	}
 	if rapid.IntRange(0, 2).Draw(t, "app-traffic") == 0 {
 		c.AppTraffic = rapid.IntRange(1, 7).Draw(t, "app-traffic-kinds")
+	}
+	if rapid.IntRange(0, 3).Draw(t, "watchdog-stream") == 0 {
+		c.WatchdogStream = rapid.SampledFrom([]uint{1, 3, 65535}).Draw(t, "watchdog-stream-no")
 	}
 	n := rapid.IntRange(1, 3).Draw(t, "dwrs")
 	for i := 0; i < n; i++ {
